@@ -436,7 +436,10 @@ func (l *lexer) scan() {
 						p = 0
 						lin = l.line
 						col = l.column
-					} else if l.tag.attr == "type" {
+					} else if l.tag.attr == "type" && l.tag.index <= p {
+						// If the value contains {{ }}, {% %} or {# #}, the source has
+						// been consumed and l.tag.index no longer refers to it: the
+						// type is not static and is ignored.
 						switch l.tag.name {
 						case "script":
 							typ := l.src[l.tag.index:p]
